@@ -11,7 +11,10 @@
    Hypotheses: [gdf] definedness (denominators / bases of powers do not vanish); the guards are the exact
    side conditions under which the real rewriting is right; where a guard fails the statement is FALSE of
    the faithful model: see the [..._refuted] theorems (witness + free-jet evaluation), each confirmed on the
-   real code by the check. *)
+   real code by the check.  The model follows /repo after the repairs e4bcf21 (Div keeps the coefficient),
+   bbebe2f (general power rule in Grad), 72e9968 (Convect pulls only constants out of its 2nd argument),
+   f9bc83f (Laplace product rule only for two scalar factors), b4ccdef (_is_sympde_atom): the former
+   refutations of those arms are replaced by [..._repaired] theorems (the old witnesses, now proved right). *)
 From Coq Require Import String ZArith List Bool.
 From V Require Import Core.Terminal Core.DField Core.Classical Model.ConstructorsM Proofs.ConstructorsP Proofs.ConstructorsLinkP.
 Import ListNotations.
@@ -23,13 +26,14 @@ Theorem C02_curl_rot_hessian_sound : forall (S : dfield) lg d fuel o e r,
 Proof. exact mk_lin_sound_all. Qed.
 Print Assumptions C02_curl_rot_hessian_sound.
 
-(* Dot, Cross, Outer (and Convect under its guard): distribution over sums, extraction of the commutative
-   factors, canonical order with sign flip (for EVERY comparison function sgt), zero short-cuts, cross(u,u)=0.
+(* Dot, Cross, Outer, Convect: distribution over sums, extraction of the commutative factors (for the second,
+   differentiated argument of Convect: of the commutative NUMBERS only), canonical order with sign flip (for
+   EVERY comparison function sgt), zero short-cuts, cross(u,u)=0.
    pull_ok = the factors pulled out are scalars ("commutative => scalar", which the library assumes). *)
 Theorem C02_dot_cross_outer_convect_sound : forall (S : dfield) lg d sgt fuel o a1 a2 r,
   (o = ODot \/ o = OCross \/ o = OOuter \/ o = OConvect) ->
   mk_bil d sgt fuel o a1 a2 = Ok r -> (o = OConvect -> gdf S lg d a2) ->
-  pull_ok d a1 = true -> pull_ok d a2 = true -> (o = OConvect -> conv_ok d a2 = true) ->
+  pull_ok d a1 = true -> (o <> OConvect -> pull_ok d a2 = true) ->
   geq S lg d r (G2 o a1 a2).
 Proof. exact mk_bil_sound. Qed.
 Print Assumptions C02_dot_cross_outer_convect_sound.
@@ -49,25 +53,31 @@ Theorem C02_bracket_sound : forall (S : dfield) lg d sgt fuel a1 a2 r,
 Proof. exact mk_bracket_sound. Qed.
 Print Assumptions C02_bracket_sound.
 
-(* ---------------------------------------------------------------- partial theorems with their exact guards *)
-(* Grad: sums, numeric / function-free / n-factor product rules, quotient and power rule with a CONSTANT exponent *)
-Theorem C02_grad_sound_partial : forall (S : dfield) lg d fuel e r,
+(* ---------------------------------------------------------------- theorems under typing / input-format guards *)
+(* Grad: sums, numeric / function-free / n-factor product rules, quotient, power rule with constant exponent and
+   the general power rule b**e -> e*b**(e-1)*grad b + b**e*log(b)*grad e.
+   cs_ok: commutative factors are scalars; grad_guard: exponents are in sympy's canonical form (input format) *)
+Theorem C02_grad_sound : forall (S : dfield) lg d fuel e r,
   mk_grad d fuel e = Ok r -> gdf S lg d e -> cs_ok d e = true -> grad_guard d e = true ->
   geq S lg d r (G1 OGrad e).
 Proof. exact mk_grad_sound_all. Qed.
-Print Assumptions C02_grad_sound_partial.
+Print Assumptions C02_grad_sound.
 
-(* Div: sums, numeric factors, div(f F) = f div F + F.grad f, div(curl) = 0, div(a x b) = b.curl a - a.curl b *)
-Theorem C02_div_sound_partial : forall (S : dfield) lg d sgt fuel e r,
+(* Div: sums, numeric factors, div(c f F) = c (f div F + F.grad f) for every coefficient c, div(curl) = 0,
+   div(a x b) = b.curl a - a.curl b.  div_guard: in f*F the factor f is a scalar admissible for Grad;
+   div(cross) in 3D, div(curl) outside 2D (typing) *)
+Theorem C02_div_sound : forall (S : dfield) lg d sgt fuel e r,
   mk_div d sgt fuel e = Ok r -> gdf S lg d e -> div_guard d e = true -> geq S lg d r (G1 ODiv e).
 Proof. exact mk_div_sound. Qed.
-Print Assumptions C02_div_sound_partial.
+Print Assumptions C02_div_sound.
 
-(* Laplace: sums, numeric factors, laplace(f g) = f lap g + g lap f + 2 grad f . grad g *)
-Theorem C02_laplace_sound_partial : forall (S : dfield) lg d sgt fuel e r,
+(* Laplace: sums, numeric factors, laplace(f g) = f lap g + g lap f + 2 grad f . grad g for two commutative
+   factors (a non-commutative factor: no rewriting).  laplace_guard: two commutative factors are scalars
+   admissible for Grad (fails only for commutative vectors, see C02_laplace_refuted_commutative_vector) *)
+Theorem C02_laplace_sound : forall (S : dfield) lg d sgt fuel e r,
   mk_laplace d sgt fuel e = Ok r -> gdf S lg d e -> laplace_guard d e = true -> geq S lg d r (G1 OLaplace e).
 Proof. exact mk_laplace_sound. Qed.
-Print Assumptions C02_laplace_sound_partial.
+Print Assumptions C02_laplace_sound.
 
 (* NormalDerivative (a derivation), Jump, Average, Minus, Plus (linear; products with one field only) *)
 Theorem C02_interface_sound_partial : forall (S : dfield) lg d sgt fuel o e r,
@@ -104,47 +114,53 @@ Proof. exact gden_transfer. Qed.
 Print Assumptions C02_soundness_transfers_to_gden.
 
 (* ---------------------------------------------------------------- refutations (defects of the real code) *)
-Theorem C02_div_refuted_coefficient :
-  let e := GMul [gint 2; GSF "f"; GVF "F"] in
-  div_guard 2 e = false /\ exists r, mk_div 2 str_gt 50 e = Ok r /\
-  tens_differ (gden true 2 SNone r) (gden true 2 SNone (G1 ODiv e)) = true.
-Proof. exact mk_div_refuted_coefficient. Qed.
-Print Assumptions C02_div_refuted_coefficient.
+(* repaired arms: the former counter-examples, now proved right per witness by the verified checker *)
+Theorem C02_div_repaired :
+  (let e := GMul [gint 2; GSF "f"; GVF "F"] in
+   div_guard 2 e = true /\ exists r, mk_div 2 str_gt 50 e = Ok r /\
+   cmp (gden true 2 SNone r) (gden true 2 SNone (G1 ODiv e)) = 0) /\
+  (let e := GMul [GSF "f"; G1 OGrad (GSF "g")] in
+   div_guard 2 e = true /\ exists r, mk_div 2 str_gt 50 e = Ok r /\
+   cmp (gden true 2 SNone r) (gden true 2 SNone (G1 ODiv e)) = 0).
+Proof. exact mk_div_repaired. Qed.
+Print Assumptions C02_div_repaired.
 
-Theorem C02_div_refuted_nonatom_vector :
-  let e := GMul [GSF "f"; G1 OGrad (GSF "g")] in
-  div_guard 2 e = false /\ exists r, mk_div 2 str_gt 50 e = Ok r /\
-  tens_differ (gden true 2 SNone r) (gden true 2 SNone (G1 ODiv e)) = true.
-Proof. exact mk_div_refuted_nonatom. Qed.
-Print Assumptions C02_div_refuted_nonatom_vector.
+Theorem C02_grad_power_rule_repaired :
+  (let e := GPow (GSF "f") (GSF "g") in
+   grad_guard 2 e = true /\ cs_ok 2 e = true /\
+   exists r, mk_grad 2 50 e = Ok r /\ cmp (gden true 2 SNone r) (gden true 2 SNone (G1 OGrad e)) = 0) /\
+  (let e := GPow (gint 2) (GSF "f") in
+   grad_guard 2 e = true /\ cs_ok 2 e = true /\
+   exists r, mk_grad 2 50 e = Ok r /\ cmp (gden true 2 SNone r) (gden true 2 SNone (G1 OGrad e)) = 0).
+Proof. exact mk_grad_repaired_power_rule. Qed.
+Print Assumptions C02_grad_power_rule_repaired.
 
-Theorem C02_grad_refuted_variable_exponent :
-  let e := GPow (GSF "f") (GSF "g") in
-  grad_guard 2 e = false /\ exists r, mk_grad 2 50 e = Ok r /\
-  tens_differ (gden true 2 SNone r) (gden true 2 SNone (G1 OGrad e)) = true.
-Proof. exact mk_grad_refuted_variable_exponent. Qed.
-Print Assumptions C02_grad_refuted_variable_exponent.
-
-Theorem C02_grad_refuted_constant_base :
-  let e := GPow (gint 2) (GSF "f") in
-  grad_guard 2 e = false /\ mk_grad 2 50 e = Ok gzero /\
-  tens_differ (Some (Sc (TZ 0))) (gden true 2 SNone (G1 OGrad e)) = true.
-Proof. exact mk_grad_refuted_constant_base. Qed.
-Print Assumptions C02_grad_refuted_constant_base.
-
-Theorem C02_convect_refuted :
+Theorem C02_convect_repaired :
   let a2 := GMul [GSF "f"; GVF "G"] in
-  conv_ok 2 a2 = false /\ exists r, mk_bil 2 str_gt 50 OConvect (GVF "F") a2 = Ok r /\
-  tens_differ (gden true 2 SNone r) (gden true 2 SNone (G2 OConvect (GVF "F") a2)) = true.
-Proof. exact mk_convect_refuted. Qed.
-Print Assumptions C02_convect_refuted.
+  mk_bil 2 str_gt 50 OConvect (GVF "F") a2 = Ok (G2 OConvect (GVF "F") a2).
+Proof. exact mk_convect_repaired. Qed.
+Print Assumptions C02_convect_repaired.
 
-Theorem C02_laplace_refuted_vector_factor :
+Theorem C02_laplace_vector_factor_repaired :
   let e := GMul [GSF "f"; GVF "F"] in
+  laplace_guard 2 e = true /\ mk_laplace 2 str_gt 50 e = Ok (G1 OLaplace e).
+Proof. exact mk_laplace_repaired_vector. Qed.
+Print Assumptions C02_laplace_vector_factor_repaired.
+
+(* still open: a commutative vector (Laplace(H), Div(Grad(H))) is taken for a scalar *)
+Theorem C02_laplace_refuted_commutative_vector :
+  let e := GMul [G1 OLaplace (GVF "H"); GSF "f"] in
   laplace_guard 2 e = false /\ exists r, mk_laplace 2 str_gt 50 e = Ok r /\
   gden true 2 SNone r = None /\ (exists t, gden true 2 SNone (G1 OLaplace e) = Some t).
-Proof. exact mk_laplace_refuted_vector. Qed.
-Print Assumptions C02_laplace_refuted_vector_factor.
+Proof. exact mk_laplace_refuted_commutative_vector. Qed.
+Print Assumptions C02_laplace_refuted_commutative_vector.
+
+Theorem C02_bilinear_refuted_commutative_vector :
+  let a1 := GMul [G2 OCross (GVF "G") (GVF "H"); G1 ODiv (G2 OOuter (GVF "F") (GVF "F"))] in
+  pull_ok 2 a1 = false /\ exists r, mk_bil 2 str_gt 50 ODot a1 (GVF "G") = Ok r /\
+  gden true 2 SNone r = None /\ (exists t, gden true 2 SNone (G2 ODot a1 (GVF "G")) = Some t).
+Proof. exact mk_bil_refuted_commutative_vector. Qed.
+Print Assumptions C02_bilinear_refuted_commutative_vector.
 
 Theorem C02_interface_refuted_product : forall o,
   o = OJump \/ o = OAvg \/ o = OMinus \/ o = OPlus ->
@@ -185,6 +201,7 @@ Example C02_nonvacuous_div_laplace_cross :
   div_guard 3 (GMul [GSF "f"; GVF "F"]) = true /\ div_guard 3 (G2 OCross (GVF "F") (GVF "G")) = true /\
   laplace_guard 3 (GMul [GConst "alpha"; GSF "f"; GSF "g"]) = true /\
   (exists r, mk_div 3 str_gt 50 (G2 OCross (GVF "F") (GVF "G")) = Ok r) /\
+  div_guard 3 (GMul [GConst "alpha"; GSF "f"; GVF "F"]) = true /\ grad_guard 2 (GPow (GSF "f") (GSF "g")) = true /\
   pull_ok 3 (GMul [GSF "f"; GVF "F"]) = true /\
   bracket_guard 2 (GMul [GCoord 0; GSF "f"]) = true /\
   iface_guard 2 ODn (GMul [GSF "f"; GSF "g"]) = true.
